@@ -1,2 +1,717 @@
 (* C07 — invariants and proofs. *)
+From Coq Require Import ZifyBool ZifyNat.
 From Dastard Require Import Common.ZX C07.Conc C07.Model C07.Spec.
+
+Local Notation Reach := (Reachable st tid step).
+Local Notation runs := (run st tid step).
+
+(* ------------------------------------------------------------------------------------------- *)
+(* history functions and append                                                                *)
+(* ------------------------------------------------------------------------------------------- *)
+Lemma accepted_app a b : accepted (a ++ b) = accepted a ++ accepted b.
+Proof.
+  induction a as [|e a IH]; simpl; [reflexivity|].
+  destruct e as [i c [|]| | | |]; simpl; rewrite ?IH; reflexivity.
+Qed.
+Lemma dequeued_app a b : dequeued (a ++ b) = dequeued a ++ dequeued b.
+Proof.
+  induction a as [|e a IH]; simpl; [reflexivity|].
+  destruct e; simpl; rewrite ?IH; reflexivity.
+Qed.
+Lemma ok_records_app a b : ok_records (a ++ b) = ok_records a ++ ok_records b.
+Proof.
+  induction a as [|e a IH]; simpl; [reflexivity|].
+  destruct e as [| i ps [|] | | |]; simpl; rewrite ?IH; reflexivity.
+Qed.
+
+(* ------------------------------------------------------------------------------------------- *)
+(* bufio.Write                                                                                 *)
+(* ------------------------------------------------------------------------------------------- *)
+Definition pend_of (c : cpc) (b : list Z) : list Z :=
+  match c with
+  | CGate w (KWrite p _) => w ++ p
+  | CGate w (KFlushed _) => w
+  | _ => []
+  end ++ b.
+
+Lemma pend_unfold s : pend s = pend_of (cpc_ s) (buf s).
+Proof. reflexivity. Qed.
+
+Lemma bufio_write_spec bsize b p m b' c' :
+  bufio_write bsize b p m = (b', c') ->
+  pend_of c' b' = b ++ p /\
+  ((c' = mode_done m) \/ (exists w p', c' = CGate w (KWrite p' m) /\ b' = [])).
+Proof.
+  unfold bufio_write. intros H.
+  destruct (zlen p >? bsize - zlen b) eqn:E1.
+  - destruct (zlen b =? 0) eqn:E2.
+    + inversion H; subst; clear H. split.
+      * assert (b = []) by (destruct b; [reflexivity | unfold zlen in E2; simpl in E2; lia]).
+        subst. unfold pend_of. now rewrite !app_nil_r.
+      * right. eauto.
+    + inversion H; subst; clear H. split.
+      * unfold pend_of. rewrite app_nil_r, <- app_assoc. f_equal. unfold zfirstn, zskipn. apply firstn_skipn.
+      * right. eauto.
+  - inversion H; subst; clear H. split.
+    + destruct m as [|k]; reflexivity.
+    + now left.
+Qed.
+
+Lemma pend_of_mode_done m b : pend_of (mode_done m) b = b.
+Proof. destruct m; reflexivity. Qed.
+Lemma pend_of_finish k b : pend_of (finish k) b = b.
+Proof. destruct k; reflexivity. Qed.
+
+(* ------------------------------------------------------------------------------------------- *)
+(* the FIFO invariant                                                                          *)
+(* ------------------------------------------------------------------------------------------- *)
+Record Inv (s : st) : Prop := {
+  inv_chunks : accepted (log s) = dequeued (log s) ++ q s;          (* the queue is a FIFO of chunks *)
+  inv_bytes : concat (dequeued (log s)) = file s ++ pend_of (cpc_ s) (buf s);  (* what left the queue, in order *)
+  inv_gate : forall w c, cpc_ s = CGate w c -> buf s = []
+}.
+
+Lemma inv_init cap bsize progs : Inv (init cap bsize progs).
+Proof. split; simpl; try reflexivity; intros; discriminate. Qed.
+
+Ltac logs := simpl; rewrite ?accepted_app, ?dequeued_app; simpl; rewrite ?app_nil_r.
+
+Lemma write_step_inv s i r all c rest : Inv s -> Inv (write_step s i r all c rest).
+Proof.
+  intros [I1 I2 I3]. unfold write_step.
+  destruct (zlen (q s) <? qcap s); [destruct rest|]; split; logs;
+    try (rewrite I1, app_assoc; reflexivity); try exact I1; try exact I2; try exact I3.
+Qed.
+
+Lemma user_step_inv s i s' : Inv s -> user_step s i = Some s' -> Inv s'.
+Proof.
+  intros HI H. unfold user_step in H.
+  destruct (nth_error (us s) i) as [u|]; [|discriminate].
+  destruct (pc u) as [|all rest| |k].
+  - destruct (prog u) as [|[ps| |] r]; [discriminate| | |].
+    + destruct ps as [|c ps]; inversion H; subst; clear H.
+      * destruct HI as [I1 I2 I3]. split; logs; assumption.
+      * now apply write_step_inv.
+    + destruct (closed s); inversion H; subst; clear H; destruct HI as [I1 I2 I3]; split; logs; assumption.
+    + destruct (closed s); inversion H; subst; clear H; destruct HI as [I1 I2 I3]; split; logs; assumption.
+  - destruct rest as [|c rest]; [discriminate|]. inversion H; subst. now apply write_step_inv.
+  - destruct (closed s).
+    + inversion H; subst; clear H. destruct HI as [I1 I2 I3]; split; logs; assumption.
+    + destruct (cpc_ s) eqn:EC; try discriminate. inversion H; subst; clear H.
+      destruct HI as [I1 I2 I3]; split; logs; try assumption.
+      * rewrite I2, EC. reflexivity.
+      * intros; discriminate.
+  - destruct (cpc_ s) eqn:EC; try discriminate. inversion H; subst; clear H.
+    destruct HI as [I1 I2 I3]; split; logs; try assumption.
+    + rewrite I2, EC. destruct closing; reflexivity.
+    + intros w c. destruct closing; discriminate.
+Qed.
+
+Lemma dequeue_inv s c q' m b' pc' :
+  Inv s -> q s = c :: q' -> pend_of (cpc_ s) (buf s) = buf s ->
+  bufio_write (bsz s) (buf s) c m = (b', pc') ->
+  Inv (set_cons s q' b' (file s) pc' [EDeq c]).
+Proof.
+  intros [I1 I2 I3] Hq Hp Hw.
+  destruct (bufio_write_spec _ _ _ _ _ _ Hw) as [Hpend Hshape].
+  split; logs.
+  - rewrite I1, Hq, <- app_assoc. reflexivity.
+  - rewrite concat_app. simpl. rewrite app_nil_r, I2, Hp, Hpend. now rewrite app_assoc.
+  - intros w k E. destruct Hshape as [E'|(w' & p' & E' & Eb)]; [|exact Eb].
+    subst pc'. destruct m; discriminate.
+Qed.
+
+Lemma cons_step_inv s b s' : Inv s -> cons_step s b = Some s' -> Inv s'.
+Proof.
+  intros HI H. unfold cons_step in H.
+  destruct (cpc_ s) as [|k|w c|cl|] eqn:EC; try discriminate.
+  - destruct b.
+    + destruct (q s) as [|c q'] eqn:Eq; [discriminate|].
+      destruct (bufio_write (bsz s) (buf s) c MLoop) as [b' pc'] eqn:Ew. inversion H; subst; clear H.
+      eapply dequeue_inv; eauto. rewrite EC. reflexivity.
+    + destruct (closed s); [|discriminate]. inversion H; subst; clear H.
+      destruct HI as [I1 I2 I3]. split; logs; try assumption.
+      * rewrite I2, EC. reflexivity.
+      * intros; discriminate.
+    + destruct (tick s); [|discriminate]. inversion H; subst; clear H.
+      destruct HI as [I1 I2 I3]. split; logs; try assumption.
+      * rewrite I2, EC. reflexivity.
+      * intros; discriminate.
+  - destruct (q s) as [|c q'] eqn:Eq.
+    + destruct (zlen (buf s) =? 0) eqn:Eb; inversion H; subst; clear H; destruct HI as [I1 I2 I3].
+      * split; logs.
+        -- rewrite I1, Eq, app_nil_r. reflexivity.
+        -- rewrite I2, EC. rewrite pend_of_finish. reflexivity.
+        -- intros w c E. destruct (buf s); [reflexivity | unfold zlen in Eb; simpl in Eb; lia].
+      * split; logs.
+        -- rewrite I1, Eq, app_nil_r. reflexivity.
+        -- rewrite I2, EC. unfold pend_of. now rewrite app_nil_r.
+        -- reflexivity.
+    + destruct (bufio_write (bsz s) (buf s) c (MDrain k)) as [b' pc'] eqn:Ew. inversion H; subst; clear H.
+      eapply dequeue_inv; eauto. rewrite EC. reflexivity.
+  - pose proof (inv_gate _ HI _ _ EC) as Hb.
+    destruct c as [p m|k].
+    + destruct (bufio_write (bsz s) (buf s) p m) as [b' pc'] eqn:Ew. inversion H; subst; clear H.
+      rewrite Hb in Ew. destruct (bufio_write_spec _ _ _ _ _ _ Ew) as [Hpend Hshape].
+      destruct HI as [I1 I2 I3]. split; logs; try assumption.
+      * rewrite I2, EC, Hb, Hpend. unfold pend_of. rewrite app_nil_r. simpl. now rewrite <- app_assoc.
+      * intros w' k E. destruct Hshape as [E'|(w'' & p' & E' & Eb)]; [|exact Eb].
+        subst pc'. destruct m; discriminate.
+    + inversion H; subst; clear H. destruct HI as [I1 I2 I3]. split; logs; try assumption.
+      * rewrite I2, EC, Hb, pend_of_finish. unfold pend_of. now rewrite !app_nil_r.
+      * intros; assumption.
+Qed.
+
+Lemma step_inv : Inductive_inv st tid step Inv.
+Proof.
+  intros s t s' HI H. unfold step in H. destruct (crashed s); [discriminate|].
+  destruct t as [b|i|].
+  - eapply cons_step_inv; eauto.
+  - eapply user_step_inv; eauto.
+  - destruct (tick s); [discriminate|]. inversion H; subst. destruct HI as [I1 I2 I3].
+    split; simpl; assumption.
+Qed.
+
+Lemma reach_inv cap bsize progs sched : Inv (runs (init cap bsize progs) sched).
+Proof. apply run_inv; [exact step_inv | apply inv_init]. Qed.
+
+Lemma fifo_order_reachable cap bsize progs sched :
+  let s := runs (init cap bsize progs) sched in
+  stream s = concat (accepted (log s)) /\
+  accepted (log s) = dequeued (log s) ++ q s /\
+  concat (dequeued (log s)) = file s ++ pend s.
+Proof.
+  intros s. pose proof (reach_inv cap bsize progs sched) as HI. fold s in HI.
+  destruct HI as [I1 I2 I3]. repeat split; try assumption.
+  unfold stream. rewrite I1, concat_app, I2. rewrite <- app_assoc. reflexivity.
+Qed.
+
+(* ------------------------------------------------------------------------------------------- *)
+(* single-Write record programs: the stream consists of whole accepted records                 *)
+(* ------------------------------------------------------------------------------------------- *)
+Definition sw_user (u : uthread) : Prop :=
+  (forall o, In o (prog u) -> single_write_op o = true) /\
+  match pc u with UInRec _ _ => False | _ => True end.
+
+Record SW (s : st) : Prop := {
+  sw_users : forall u, In u (us s) -> sw_user u;
+  sw_log : accepted (log s) = concat (ok_records (log s))
+}.
+
+Lemma in_upd_nth {A} (l : list A) i x y : In y (upd_nth l i x) -> y = x \/ In y l.
+Proof.
+  revert i; induction l as [|a l IH]; intros [|i]; simpl; try tauto.
+  - intros [H|H]; auto.
+  - intros [H|H]; auto. destruct (IH _ H); auto.
+Qed.
+
+Lemma sw_init cap bsize progs : single_write progs -> SW (init cap bsize progs).
+Proof.
+  intros H. split; simpl; [|reflexivity].
+  intros u Hu. apply in_map_iff in Hu as (p & <- & Hp). split; simpl; [|exact I].
+  intros o Ho. eapply H; eauto.
+Qed.
+
+Lemma sw_keep s s' :
+  SW s -> us s' = us s -> accepted (log s') = accepted (log s) -> ok_records (log s') = ok_records (log s) -> SW s'.
+Proof. intros [H1 H2] E1 E2 E3. split; [rewrite E1; exact H1 | rewrite E2, E3; exact H2]. Qed.
+
+Lemma sw_set_user s i u u' q' c cl lg :
+  SW s -> nth_error (us s) i = Some u -> sw_user u' ->
+  accepted lg = concat (ok_records lg) ->
+  SW (set_user s i u' q' c cl lg).
+Proof.
+  intros [H1 H2] Hn Hu' Hlg. split; simpl.
+  - intros y Hy. destruct (in_upd_nth _ _ _ _ Hy) as [->|Hy']; auto.
+  - rewrite accepted_app, ok_records_app, concat_app, H2, Hlg. reflexivity.
+Qed.
+
+Lemma user_step_sw s i s' : SW s -> user_step s i = Some s' -> SW s'.
+Proof.
+  intros HS H. unfold user_step in H.
+  destruct (nth_error (us s) i) as [u|] eqn:En; [|discriminate].
+  assert (Hu : sw_user u) by (apply (sw_users _ HS); eapply nth_error_In; eauto).
+  destruct Hu as [Hops Hpc].
+  destruct (pc u) as [|all rest| |k] eqn:Epc; [| contradiction | |].
+  - destruct (prog u) as [|[ps| |] r] eqn:Ep; [discriminate| | |].
+    + assert (Hr : forall o, In o r -> single_write_op o = true) by (intros; apply Hops; now right).
+      destruct ps as [|c ps]; inversion H; subst; clear H.
+      * eapply sw_set_user; eauto. split; simpl; auto.
+      * assert (ps = []) as -> by (specialize (Hops _ (or_introl eq_refl)); simpl in Hops; destruct ps; [reflexivity|discriminate]).
+        unfold write_step. destruct (zlen (q s) <? qcap s); eapply sw_set_user; eauto; try (split; simpl; auto).
+    + assert (Hr : forall o, In o r -> single_write_op o = true) by (intros; apply Hops; now right).
+      destruct (closed s); inversion H; subst; clear H.
+      * eapply sw_keep; eauto.
+      * eapply sw_set_user; eauto. split; simpl; auto.
+    + assert (Hr : forall o, In o r -> single_write_op o = true) by (intros; apply Hops; now right).
+      destruct (closed s); inversion H; subst; clear H.
+      * eapply sw_keep; eauto.
+      * eapply sw_set_user; eauto. split; simpl; auto.
+  - destruct (closed s).
+    + inversion H; subst. eapply sw_keep; eauto.
+    + destruct (cpc_ s); try discriminate. inversion H; subst; clear H.
+      eapply sw_set_user; eauto. split; simpl; auto.
+  - destruct (cpc_ s); try discriminate. inversion H; subst; clear H.
+    eapply sw_set_user; eauto. split; simpl; auto.
+Qed.
+
+Lemma cons_step_sw s b s' : SW s -> cons_step s b = Some s' -> SW s'.
+Proof.
+  intros HS H. unfold cons_step in H.
+  destruct (cpc_ s) as [|k|w c|cl|]; try discriminate.
+  - destruct b.
+    + destruct (q s); [discriminate|]. destruct (bufio_write _ _ _ _). inversion H; subst.
+      eapply sw_keep; eauto; simpl; rewrite ?accepted_app, ?ok_records_app; simpl; now rewrite app_nil_r.
+    + destruct (closed s); [|discriminate]. inversion H; subst. eapply sw_keep; eauto; simpl; now rewrite app_nil_r.
+    + destruct (tick s); [|discriminate]. inversion H; subst. eapply sw_keep; eauto; simpl; now rewrite app_nil_r.
+  - destruct (q s).
+    + destruct (zlen (buf s) =? 0); inversion H; subst; eapply sw_keep; eauto; simpl; now rewrite app_nil_r.
+    + destruct (bufio_write _ _ _ _). inversion H; subst.
+      eapply sw_keep; eauto; simpl; rewrite ?accepted_app, ?ok_records_app; simpl; now rewrite app_nil_r.
+  - destruct c.
+    + destruct (bufio_write _ _ _ _). inversion H; subst. eapply sw_keep; eauto; simpl; now rewrite app_nil_r.
+    + inversion H; subst. eapply sw_keep; eauto; simpl; now rewrite app_nil_r.
+Qed.
+
+Lemma step_sw : Inductive_inv st tid step SW.
+Proof.
+  intros s t s' HS H. unfold step in H. destruct (crashed s); [discriminate|].
+  destruct t as [b|i|].
+  - eapply cons_step_sw; eauto.
+  - eapply user_step_sw; eauto.
+  - destruct (tick s); [discriminate|]. inversion H; subst. eapply sw_keep; eauto.
+Qed.
+
+Lemma concat_concat' {A} (l : list (list (list A))) : concat (concat l) = concat (map (@concat A) l).
+Proof. induction l as [|x l IH]; simpl; [reflexivity|]. now rewrite concat_app, IH. Qed.
+
+Lemma whole_records_reachable cap bsize progs sched :
+  single_write progs ->
+  let s := runs (init cap bsize progs) sched in
+  stream s = concat (map (@concat Z) (ok_records (log s))).
+Proof.
+  intros Hsw s.
+  assert (HS : SW s) by (apply run_inv; [exact step_sw | now apply sw_init]).
+  destruct (fifo_order_reachable cap bsize progs sched) as [H _]. fold s in H.
+  rewrite H, (sw_log _ HS). apply concat_concat'.
+Qed.
+
+(* ------------------------------------------------------------------------------------------- *)
+(* the log only grows; the header                                                              *)
+(* ------------------------------------------------------------------------------------------- *)
+Lemma step_log_grows s t s' : step s t = Some s' -> exists lg, log s' = log s ++ lg.
+Proof.
+  unfold step. destruct (crashed s); [discriminate|]. destruct t as [b|i|].
+  - unfold cons_step. destruct (cpc_ s) as [|k|w c|cl|]; try discriminate.
+    + destruct b.
+      * destruct (q s); [discriminate|]. destruct (bufio_write _ _ _ _). intros H; inversion H; subst. simpl. eauto.
+      * destruct (closed s); [|discriminate]. intros H; inversion H; subst. simpl. eauto.
+      * destruct (tick s); [|discriminate]. intros H; inversion H; subst. simpl. eauto.
+    + destruct (q s).
+      * destruct (zlen (buf s) =? 0); intros H; inversion H; subst; simpl; eauto.
+      * destruct (bufio_write _ _ _ _). intros H; inversion H; subst. simpl. eauto.
+    + destruct c.
+      * destruct (bufio_write _ _ _ _). intros H; inversion H; subst. simpl. eauto.
+      * intros H; inversion H; subst. simpl. eauto.
+  - unfold user_step. destruct (nth_error (us s) i) as [u|]; [|discriminate].
+    destruct (pc u) as [|all rest| |k].
+    + destruct (prog u) as [|[ps| |] r]; [discriminate| | |].
+      * destruct ps as [|c ps]; intros H; inversion H; subst; simpl; eauto.
+        unfold write_step. destruct (zlen (q s) <? qcap s); [destruct ps|]; simpl; eauto.
+      * destruct (closed s); intros H; inversion H; subst; simpl; eauto. exists []. now rewrite app_nil_r.
+      * destruct (closed s); intros H; inversion H; subst; simpl; eauto. exists []. now rewrite app_nil_r.
+    + destruct rest as [|c rest]; [discriminate|]. intros H; inversion H; subst.
+      unfold write_step. destruct (zlen (q s) <? qcap s); [destruct rest|]; simpl; eauto.
+    + destruct (closed s).
+      * intros H; inversion H; subst; simpl. exists []. now rewrite app_nil_r.
+      * destruct (cpc_ s); try discriminate. intros H; inversion H; subst; simpl; eauto.
+    + destruct (cpc_ s); try discriminate. intros H; inversion H; subst; simpl; eauto.
+  - destruct (tick s); [discriminate|]. intros H; inversion H; subst; simpl. exists []. now rewrite app_nil_r.
+Qed.
+
+Lemma run_log_grows sched : forall s, exists lg, log (runs s sched) = log s ++ lg.
+Proof.
+  induction sched as [|t r IH]; intros s; simpl.
+  - exists []. now rewrite app_nil_r.
+  - unfold step1. destruct (step s t) as [s'|] eqn:E; [|apply IH].
+    destruct (step_log_grows _ _ _ E) as [l1 E1]. destruct (IH s') as [l2 E2].
+    exists (l1 ++ l2). now rewrite E2, E1, app_assoc.
+Qed.
+
+Lemma header_first_step cap bsize h p0 others :
+  1 <= cap ->
+  exists s1, step (init cap bsize ((Rec [h] :: p0) :: others)) (TU 0) = Some s1 /\
+             log s1 = [EWrite 0 h true; ERec 0 [h] true].
+Proof.
+  intros Hcap. unfold step, user_step. simpl. unfold write_step. simpl.
+  replace (zlen (@nil chunk) <? cap) with true by (unfold zlen; simpl; lia).
+  eexists; split; reflexivity.
+Qed.
+
+Lemma header_then_records cap bsize h p0 others sched :
+  1 <= cap -> single_write ((Rec [h] :: p0) :: others) ->
+  let s := runs (init cap bsize ((Rec [h] :: p0) :: others)) (TU 0 :: sched) in
+  exists recs, ok_records (log s) = [h] :: recs /\ stream s = h ++ concat (map (@concat Z) recs).
+Proof.
+  intros Hcap Hsw s.
+  pose proof (whole_records_reachable cap bsize _ (TU 0 :: sched) Hsw) as Hs. fold s in Hs.
+  destruct (header_first_step cap bsize h p0 others Hcap) as (s1 & E1 & L1).
+  assert (Es : s = runs s1 sched) by (unfold s; simpl; unfold step1; now rewrite E1).
+  destruct (run_log_grows sched s1) as [lg E]. rewrite <- Es, L1 in E.
+  exists (ok_records lg). split.
+  - rewrite E. reflexivity.
+  - rewrite Hs, E. simpl. now rewrite app_nil_r.
+Qed.
+
+(* ------------------------------------------------------------------------------------------- *)
+(* before the repair: three Writes per record (LJH 2.2), queue one short of full               *)
+(* ------------------------------------------------------------------------------------------- *)
+Definition old_progs : list (list uop) :=
+  [[rec_parts_old [[1]]; rec_parts_old [[10]; [11]; [12]]; rec_parts_old [[20]; [21]; [22]];
+    rec_parts_old [[30]; [31]; [32]]]].
+(* the producer runs alone (the consumer is stalled); queue depth 6 *)
+Definition old_sched : list tid := repeat (TU 0) 9.
+Definition old_final : st := runs (init 6 8 old_progs) old_sched.
+
+Lemma whole_records_refuted_pre_fix_witness :
+  ok_records (log old_final) = [[[1]]; [[10]; [11]; [12]]] /\
+  failed_records (log old_final) = [[[20]; [21]; [22]]; [[30]; [31]; [32]]] /\
+  stream old_final = [1; 10; 11; 12; 20; 21] /\
+  stream old_final <> concat (map (@concat Z) (ok_records (log old_final))).
+Proof. vm_compute. repeat split. discriminate. Qed.
+
+(* ------------------------------------------------------------------------------------------- *)
+(* Flush / Close                                                                               *)
+(* ------------------------------------------------------------------------------------------- *)
+(* chunks accepted before the latest call of Flush/Close by thread i *)
+Fixpoint cm (i : nat) (lg : list event) (acc m : list chunk) : list chunk :=
+  match lg with
+  | [] => m
+  | EWrite _ c true :: r => cm i r (acc ++ [c]) m
+  | ECall j _ :: r => if Nat.eqb j i then cm i r acc acc else cm i r acc m
+  | _ :: r => cm i r acc m
+  end.
+Definition call_mark (i : nat) (lg : list event) : list chunk := cm i lg [] [].
+
+Lemma cm_app i a : forall b acc m, cm i (a ++ b) acc m = cm i b (acc ++ accepted a) (cm i a acc m).
+Proof.
+  induction a as [|e a IH]; intros b acc m; simpl; [now rewrite app_nil_r|].
+  destruct e as [j c [|]| | |j k|]; simpl; rewrite ?IH; try reflexivity.
+  - now rewrite <- app_assoc.
+  - destruct (Nat.eqb j i); reflexivity.
+Qed.
+
+Definition not_call_of (i : nat) (e : event) : Prop :=
+  match e with ECall j _ => j <> i | _ => True end.
+Definition not_ret (e : event) : Prop :=
+  match e with ERet _ _ _ _ _ => False | _ => True end.
+
+Lemma cm_no_call i l : (forall e, In e l -> not_call_of i e) -> forall acc m, cm i l acc m = m.
+Proof.
+  induction l as [|e l IH]; intros H acc m; simpl; [reflexivity|].
+  assert (He := H e (or_introl eq_refl)). assert (Hl : forall e', In e' l -> not_call_of i e') by (intros; apply H; now right).
+  destruct e as [j c [|]| | |j k|]; simpl; rewrite ?IH; auto.
+  simpl in He. destruct (Nat.eqb_spec j i); [contradiction|reflexivity].
+Qed.
+
+Lemma call_mark_decomp i l1 k l2 :
+  no_event_of i l2 -> call_mark i (l1 ++ ECall i k :: l2) = accepted l1.
+Proof.
+  intros H. unfold call_mark. rewrite cm_app. simpl. rewrite Nat.eqb_refl.
+  apply cm_no_call. intros e He. specialize (H e He). destruct e; simpl; auto.
+Qed.
+
+Lemma call_mark_app_nocall i lg l :
+  (forall e, In e l -> not_call_of i e) -> call_mark i (lg ++ l) = call_mark i lg.
+Proof. intros H. unfold call_mark. rewrite cm_app. now apply cm_no_call. Qed.
+
+Lemma call_mark_snoc_call i lg k : call_mark i (lg ++ [ECall i k]) = accepted lg.
+Proof. unfold call_mark. rewrite cm_app. simpl. now rewrite Nat.eqb_refl. Qed.
+
+Lemma is_prefix_refl {A} (l : list A) : is_prefix l l.
+Proof. exists []. now rewrite app_nil_r. Qed.
+Lemma is_prefix_app {A} (a b c : list A) : is_prefix a b -> is_prefix a (b ++ c).
+Proof. intros [r ->]. exists (r ++ c). now rewrite app_assoc. Qed.
+Lemma is_prefix_concat {A} (a b : list (list A)) : is_prefix a b -> is_prefix (concat a) (concat b).
+Proof. intros [r ->]. exists (concat r). now rewrite concat_app. Qed.
+
+Lemma cm_prefix i lg : forall acc m, is_prefix m acc -> is_prefix (cm i lg acc m) (acc ++ accepted lg).
+Proof.
+  induction lg as [|e lg IH]; intros acc m H; simpl; [now rewrite app_nil_r|].
+  destruct e as [j c [|]| | |j k|]; simpl; try (apply IH; assumption).
+  - replace (acc ++ c :: accepted lg) with ((acc ++ [c]) ++ accepted lg) by now rewrite <- app_assoc.
+    apply IH. now apply is_prefix_app.
+  - destruct (Nat.eqb j i); apply IH; [apply is_prefix_refl | assumption].
+Qed.
+Lemma call_mark_prefix i lg : is_prefix (call_mark i lg) (accepted lg).
+Proof. apply (cm_prefix i lg [] []). apply is_prefix_refl. Qed.
+
+(* --- list surgery --- *)
+Lemma exists_last_or_nil {A} (l : list A) : l = [] \/ exists l' x, l = l' ++ [x].
+Proof.
+  destruct l as [|a l]; [now left|]. right.
+  destruct (@exists_last _ (a :: l)) as (l' & x & E); [discriminate|]. eauto.
+Qed.
+Lemma snoc_decomp {A} (lg : list A) e l1 a l2 r l3 :
+  lg ++ [e] = l1 ++ a :: l2 ++ r :: l3 ->
+  (l3 = [] /\ r = e /\ lg = l1 ++ a :: l2) \/
+  (exists l3', l3 = l3' ++ [e] /\ lg = l1 ++ a :: l2 ++ r :: l3').
+Proof.
+  intros H. destruct (@exists_last_or_nil _ l3) as [->|(l3' & x & ->)].
+  - left. replace (l1 ++ a :: l2 ++ [r]) with ((l1 ++ a :: l2) ++ [r]) in H
+      by (rewrite <- app_assoc; reflexivity).
+    apply app_inj_tail in H as [H1 H2]. auto.
+  - right. replace (l1 ++ a :: l2 ++ r :: l3' ++ [x]) with ((l1 ++ a :: l2 ++ r :: l3') ++ [x]) in H
+      by (rewrite <- !app_assoc; simpl; rewrite <- app_assoc; reflexivity).
+    apply app_inj_tail in H as [H1 H2]. subst. eauto.
+Qed.
+
+(* --- what must hold of every (call, return) pair of the log --- *)
+Definition good_ret (l1 l2 : list event) (f : list Z) (qs : list chunk) (b : list Z) : Prop :=
+  exists d, accepted (l1 ++ l2) = d ++ qs /\ f = concat d /\ is_prefix (accepted l1) d /\ b = [].
+
+Definition RetOK (lg : list event) : Prop :=
+  forall l1 i k l2 k' f qs b l3,
+    lg = l1 ++ ECall i k :: l2 ++ ERet i k' f qs b :: l3 -> no_event_of i l2 -> good_ret l1 l2 f qs b.
+
+Lemma retok_snoc_other lg e : RetOK lg -> not_ret e -> RetOK (lg ++ [e]).
+Proof.
+  intros H Hne l1 i k l2 k' f qs b l3 E Hno.
+  apply snoc_decomp in E as [(-> & Er & El)|(l3' & -> & El)].
+  - subst e; simpl in Hne; contradiction.
+  - eapply H; eauto.
+Qed.
+
+Lemma retok_app_noret l : forall lg, RetOK lg -> (forall e, In e l -> not_ret e) -> RetOK (lg ++ l).
+Proof.
+  induction l as [|e l IH]; intros lg H Hl; [now rewrite app_nil_r|].
+  replace (lg ++ e :: l) with ((lg ++ [e]) ++ l) by (rewrite <- app_assoc; reflexivity).
+  apply IH; [apply retok_snoc_other; auto; apply Hl; now left | intros; apply Hl; now right].
+Qed.
+
+Lemma retok_snoc_ret lg i k f qs b :
+  RetOK lg ->
+  (forall l1 k0 l2, lg = l1 ++ ECall i k0 :: l2 -> no_event_of i l2 -> good_ret l1 l2 f qs b) ->
+  RetOK (lg ++ [ERet i k f qs b]).
+Proof.
+  intros H Hn l1 j k1 l2 k' f' qs' b' l3 E Hno.
+  apply snoc_decomp in E as [(-> & Er & El)|(l3' & -> & El)].
+  - inversion Er; subst. eapply Hn; eauto.
+  - eapply H; eauto.
+Qed.
+
+(* --- where the consumer is, seen from a Flush/Close caller --- *)
+Inductive phase := PLoop | PPre (k : fkind) | PPost (k : fkind) | PDone (cl : bool) | PExit.
+Definition phase_of (c : cpc) : phase :=
+  match c with
+  | CSelect => PLoop
+  | CDrain FTick => PLoop
+  | CDrain k => PPre k
+  | CGate _ (KWrite _ MLoop) => PLoop
+  | CGate _ (KWrite _ (MDrain FTick)) => PLoop
+  | CGate _ (KWrite _ (MDrain k)) => PPre k
+  | CGate _ (KFlushed FTick) => PLoop
+  | CGate _ (KFlushed k) => PPost k
+  | CComplete cl => PDone cl
+  | CExit => PExit
+  end.
+
+Definition no_ctl (p : list uop) : Prop := forallb (fun o => negb (is_ctl o)) p = true.
+Definition is_call_pc (p : upc) : bool := match p with USend | UWait _ => true | _ => false end.
+
+Definition progress (c : nat) (s : st) : Prop :=
+  match phase_of (cpc_ s) with
+  | PPost _ | PDone _ => is_prefix (call_mark c (log s)) (dequeued (log s))
+  | _ => True
+  end.
+
+Definition ctl_state (c : nat) (s : st) : Prop :=
+  match nth_error (us s) c with
+  | None => closed s = false /\ phase_of (cpc_ s) = PLoop
+  | Some u =>
+      ctl_ordered (prog u) = true /\
+      match pc u with
+      | UIdle | UInRec _ _ =>
+          if closed s then phase_of (cpc_ s) = PExit /\ no_ctl (prog u) else phase_of (cpc_ s) = PLoop
+      | USend => closed s = false /\ phase_of (cpc_ s) = PLoop
+      | UWait false => closed s = false /\ progress c s /\
+          (phase_of (cpc_ s) = PPre FNow \/ phase_of (cpc_ s) = PPost FNow \/ phase_of (cpc_ s) = PDone false)
+      | UWait true => closed s = true /\ no_ctl (prog u) /\ progress c s /\
+          (phase_of (cpc_ s) = PLoop \/ phase_of (cpc_ s) = PPre FClose \/
+           phase_of (cpc_ s) = PPost FClose \/ phase_of (cpc_ s) = PDone true)
+      end
+  end.
+
+Record CtlInv (c : nat) (s : st) : Prop := {
+  ci_alive : crashed s = false;
+  ci_others : forall i u, nth_error (us s) i = Some u -> i <> c -> no_ctl (prog u) /\ is_call_pc (pc u) = false;
+  ci_ctl : ctl_state c s;
+  ci_complete : forall cl, cpc_ s = CComplete cl -> buf s = [];
+  ci_rets : RetOK (log s)
+}.
+
+(* consumer-side transitions of ctl_state *)
+Lemma cs_same c s s' :
+  ctl_state c s -> nth_error (us s') c = nth_error (us s) c -> closed s' = closed s ->
+  phase_of (cpc_ s') = phase_of (cpc_ s) ->
+  call_mark c (log s') = call_mark c (log s) ->
+  (exists dl, dequeued (log s') = dequeued (log s) ++ dl) ->
+  ctl_state c s'.
+Proof.
+  unfold ctl_state, progress. intros H E1 E2 E3 E4 [dl E5]. rewrite E1, E2, E3, E4, E5.
+  destruct (nth_error (us s) c) as [u|]; [|exact H].
+  destruct H as [H0 H]. split; [exact H0|].
+  destruct (pc u) as [| | |[|]]; try exact H.
+  - destruct H as (A & B & C & D). repeat split; auto.
+    destruct (phase_of (cpc_ s)); auto; now apply is_prefix_app.
+  - destruct H as (A & C & D). repeat split; auto.
+    destruct (phase_of (cpc_ s)); auto; now apply is_prefix_app.
+Qed.
+
+Lemma cs_take_close c s s' :
+  ctl_state c s -> us s' = us s -> closed s' = closed s -> closed s = true ->
+  phase_of (cpc_ s) = PLoop -> phase_of (cpc_ s') = PPre FClose -> ctl_state c s'.
+Proof.
+  unfold ctl_state, progress. intros H E1 E2 Ecl P P'. rewrite E1, E2, P', Ecl. rewrite P, Ecl in H.
+  destruct (nth_error (us s) c) as [u|]; [|destruct H; discriminate].
+  destruct H as [H0 H]. split; [exact H0|].
+  destruct (pc u) as [| | |[|]].
+  - destruct H; discriminate.
+  - destruct H; discriminate.
+  - destruct H; discriminate.
+  - destruct H as (A & B & C & D). repeat split; auto.
+  - destruct H; discriminate.
+Qed.
+
+Definition closing_of (k : fkind) : bool := match k with FClose => true | _ => false end.
+
+(* the drain loop found the queue empty (default branch), or the final Flush returned *)
+Lemma cs_advance c s s' k :
+  ctl_state c s -> us s' = us s -> closed s' = closed s -> k <> FTick ->
+  (phase_of (cpc_ s) = PPre k \/ phase_of (cpc_ s) = PPost k) ->
+  (phase_of (cpc_ s') = PPost k \/ phase_of (cpc_ s') = PDone (closing_of k)) ->
+  is_prefix (call_mark c (log s')) (dequeued (log s')) ->
+  ctl_state c s'.
+Proof.
+  unfold ctl_state, progress. intros H E1 E2 Hk P P' Hp. rewrite E1, E2.
+  destruct (nth_error (us s) c) as [u|].
+  - destruct H as [H0 H]. split; [exact H0|].
+    destruct (pc u) as [| | |[|]].
+    + destruct (closed s); destruct P as [P|P]; rewrite P in H; first [discriminate | destruct H; discriminate].
+    + destruct (closed s); destruct P as [P|P]; rewrite P in H; first [discriminate | destruct H; discriminate].
+    + destruct P as [P|P]; rewrite P in H; destruct H; discriminate.
+    + destruct H as (A & B & C & D). repeat split; auto.
+      * destruct P' as [P'|P']; rewrite P'; exact Hp.
+      * assert (k = FClose) as -> by (destruct P as [P|P]; rewrite P in D;
+          destruct D as [D|[D|[D|D]]]; try discriminate; inversion D; reflexivity).
+        destruct P' as [P'|P']; rewrite P'; simpl; auto.
+    + destruct H as (A & C & D). repeat split; auto.
+      * destruct P' as [P'|P']; rewrite P'; exact Hp.
+      * assert (k = FNow) as -> by (destruct P as [P|P]; rewrite P in D;
+          destruct D as [D|[D|D]]; try discriminate; inversion D; reflexivity).
+        destruct P' as [P'|P']; rewrite P'; simpl; auto.
+  - destruct H as [_ H]. destruct P as [P|P]; rewrite P in H; discriminate.
+Qed.
+
+Definition phase_m (m : cmode) : phase :=
+  match m with MLoop => PLoop | MDrain FTick => PLoop | MDrain k => PPre k end.
+
+Lemma phase_bufio bsize b p m b' pc' :
+  bufio_write bsize b p m = (b', pc') -> phase_of pc' = phase_m m /\ (forall cl, pc' <> CComplete cl).
+Proof.
+  intros H. destruct (bufio_write_spec _ _ _ _ _ _ H) as [_ [->|(w & p' & -> & _)]].
+  - split; [destruct m as [|[| |]]; reflexivity | destruct m; discriminate].
+  - split; [destruct m as [|[| |]]; reflexivity | discriminate].
+Qed.
+
+Lemma ctl_set_tick c s b : CtlInv c s -> CtlInv c (set_tick s b).
+Proof. intros [A B C D E]. split; simpl; auto. Qed.
+
+Lemma ctl_set_cons c s q' b' f' pc' lg :
+  CtlInv c s -> (forall e, In e lg -> not_ret e) ->
+  ctl_state c (set_cons s q' b' f' pc' lg) ->
+  (forall cl, pc' = CComplete cl -> b' = []) ->
+  CtlInv c (set_cons s q' b' f' pc' lg).
+Proof.
+  intros [A B C D E] Hlg Hc Hb. split; simpl; auto. now apply retok_app_noret.
+Qed.
+
+Lemma finish_phase k : k <> FTick -> phase_of (finish k) = PDone (closing_of k).
+Proof. destruct k; simpl; congruence. Qed.
+
+Lemma cons_step_ctl c s b s' : Inv s -> CtlInv c s -> cons_step s b = Some s' -> CtlInv c s'.
+Proof.
+  intros HI HC H. pose proof (ci_ctl _ _ HC) as Hcs. unfold cons_step in H.
+  assert (Hdeq : forall x, forall e, In e [EDeq x] -> not_ret e) by (intros x e [<-|[]]; exact I).
+  assert (Hnil : forall e, In e (@nil event) -> not_ret e) by (intros e []).
+  assert (Hpost : forall k, k <> FTick -> phase_of (cpc_ s) = PPost k ->
+                  is_prefix (call_mark c (log s)) (dequeued (log s))).
+  { intros k Hk P. unfold ctl_state, progress in Hcs. rewrite P in Hcs.
+    destruct (nth_error (us s) c) as [u|]; [|destruct Hcs; discriminate].
+    destruct Hcs as [_ Hcs]. destruct (pc u) as [| | |[|]]; try (destruct (closed s)); intuition discriminate. }
+  destruct (cpc_ s) as [|k|w ct|cl|] eqn:EC; try discriminate.
+  - (* at the main select *)
+    destruct b.
+    + destruct (q s) as [|x q'] eqn:Eq; [discriminate|].
+      destruct (bufio_write (bsz s) (buf s) x MLoop) as [b' pc'] eqn:Ew. inversion H; subst; clear H.
+      destruct (phase_bufio _ _ _ _ _ _ Ew) as [Hph Hnc].
+      apply ctl_set_cons; [exact HC | apply Hdeq | | ].
+      * apply (cs_same c s); [exact Hcs | reflexivity | reflexivity | | | ]; simpl.
+        -- now rewrite Hph, EC.
+        -- apply call_mark_app_nocall. intros e [<-|[]]. exact I.
+        -- rewrite dequeued_app. eauto.
+      * intros cl E. exfalso. eapply Hnc; eauto.
+    + destruct (closed s) eqn:Ecl; [|discriminate]. inversion H; subst; clear H.
+      apply ctl_set_cons; [exact HC | exact Hnil | | intros; discriminate].
+      apply (cs_take_close c s); [exact Hcs | reflexivity | reflexivity | exact Ecl | | ]; simpl; [now rewrite EC | reflexivity].
+    + destruct (tick s); [|discriminate]. inversion H; subst; clear H.
+      apply ctl_set_tick. apply ctl_set_cons; [exact HC | exact Hnil | | intros; discriminate].
+      apply (cs_same c s); [exact Hcs | reflexivity | reflexivity | | | ]; simpl.
+      * now rewrite EC.
+      * now rewrite app_nil_r.
+      * exists []. now rewrite !app_nil_r.
+  - (* in flush(): the inner select *)
+    destruct (q s) as [|x q'] eqn:Eq.
+    + (* default: aw.writer.Flush() *)
+      assert (Hpre : accepted (log s) = dequeued (log s)) by (rewrite (inv_chunks _ HI), Eq; now rewrite app_nil_r).
+      assert (Hpref : is_prefix (call_mark c (log s)) (dequeued (log s))) by (rewrite <- Hpre; apply call_mark_prefix).
+      destruct (zlen (buf s) =? 0) eqn:Eb; inversion H; subst; clear H.
+      * assert (Hbn : buf s = []) by (destruct (buf s); [reflexivity | unfold zlen in Eb; simpl in Eb; lia]).
+        apply ctl_set_cons; [exact HC | exact Hnil | | intros; exact Hbn].
+        destruct k.
+        -- apply (cs_advance c s _ FNow); [exact Hcs | reflexivity | reflexivity | | | | ]; simpl; rewrite ?EC, ?app_nil_r; auto; discriminate.
+        -- apply (cs_advance c s _ FClose); [exact Hcs | reflexivity | reflexivity | | | | ]; simpl; rewrite ?EC, ?app_nil_r; auto; discriminate.
+        -- apply (cs_same c s); [exact Hcs | reflexivity | reflexivity | | | ]; simpl; rewrite ?EC, ?app_nil_r; auto. exists []. now rewrite app_nil_r.
+      * apply ctl_set_cons; [exact HC | exact Hnil | | intros; discriminate].
+        destruct k.
+        -- apply (cs_advance c s _ FNow); [exact Hcs | reflexivity | reflexivity | | | | ]; simpl; rewrite ?EC, ?app_nil_r; auto; discriminate.
+        -- apply (cs_advance c s _ FClose); [exact Hcs | reflexivity | reflexivity | | | | ]; simpl; rewrite ?EC, ?app_nil_r; auto; discriminate.
+        -- apply (cs_same c s); [exact Hcs | reflexivity | reflexivity | | | ]; simpl; rewrite ?EC, ?app_nil_r; auto. exists []. now rewrite app_nil_r.
+    + destruct (bufio_write (bsz s) (buf s) x (MDrain k)) as [b' pc'] eqn:Ew. inversion H; subst; clear H.
+      destruct (phase_bufio _ _ _ _ _ _ Ew) as [Hph Hnc].
+      apply ctl_set_cons; [exact HC | apply Hdeq | | ].
+      * apply (cs_same c s); [exact Hcs | reflexivity | reflexivity | | | ]; simpl.
+        -- rewrite Hph, EC. destruct k; reflexivity.
+        -- apply call_mark_app_nocall. intros e [<-|[]]. exact I.
+        -- rewrite dequeued_app. eauto.
+      * intros cl E. exfalso. eapply Hnc; eauto.
+  - (* the underlying write returns *)
+    pose proof (inv_gate _ HI _ _ EC) as Hb.
+    destruct ct as [p m|k].
+    + destruct (bufio_write (bsz s) (buf s) p m) as [b' pc'] eqn:Ew. inversion H; subst; clear H.
+      destruct (phase_bufio _ _ _ _ _ _ Ew) as [Hph Hnc].
+      apply ctl_set_cons; [exact HC | exact Hnil | | ].
+      * apply (cs_same c s); [exact Hcs | reflexivity | reflexivity | | | ]; simpl.
+        -- rewrite Hph, EC. destruct m as [|[| |]]; reflexivity.
+        -- now rewrite app_nil_r.
+        -- exists []. now rewrite !app_nil_r.
+      * intros cl E. exfalso. eapply Hnc; eauto.
+    + inversion H; subst; clear H.
+      apply ctl_set_cons; [exact HC | exact Hnil | | intros; exact Hb].
+      destruct k.
+      * apply (cs_advance c s _ FNow); [exact Hcs | reflexivity | reflexivity | | | | ]; simpl; rewrite ?EC, ?app_nil_r; auto; try discriminate.
+        apply (Hpost FNow); [discriminate | reflexivity].
+      * apply (cs_advance c s _ FClose); [exact Hcs | reflexivity | reflexivity | | | | ]; simpl; rewrite ?EC, ?app_nil_r; auto; try discriminate.
+        apply (Hpost FClose); [discriminate | reflexivity].
+      * apply (cs_same c s); [exact Hcs | reflexivity | reflexivity | | | ]; simpl; rewrite ?EC, ?app_nil_r; auto. exists []. now rewrite app_nil_r.
+Qed.
